@@ -30,7 +30,10 @@ RULE = (
     "payload {GroupValueWrite/Response with 0..254 data octets biased to NPDU 14/15/16/253/254/255, 6-bit value, one "
     "instance of every APCI service class} x priority x repeat x system-broadcast x ack x confirm x hop {-1,0..7,8,15} x "
     "3 message codes x 0..8 additional-info octets; and every NPDU length 1..255 once per destination kind (enumerated). "
-    "(b) frames of the C12 generators that parse as L_Data with the reserved Ctrl1 bit clear. "
+    "(b) frames of the C12 generators that parse as L_Data with the reserved Ctrl1 bit clear; plus frames whose octet count "
+    "disagrees with the NPDU length field in both directions, for data TPDUs and for every control TPCI (T_Connect, T_Disconnect, "
+    "T_ACK/T_NAK seq 0..15: length 0 with 1..4 surplus octets, length n>0 with n / fewer / more octets), enumerated and generated: "
+    "a frame the parser accepts must be reproduced by to_knx() including its length, so these must be rejected. "
     "Non-trivial = NPDU length in {14,15,16,253,254,255} or any control flag / hop count / additional info different "
     "from the defaults, or (b) any parsed received frame."
 )
@@ -258,7 +261,27 @@ def oracle_received(ctx, raw: bytes) -> None:
         d = L.decode_ldata(raw)
     except L.RefError as e:
         ctx.case(raw, nontrivial=True, cls="rx:parsed-but-reference-rejects")
-        ctx.fail("C13:received:accepted-malformed-layout", raw, f"xknx parsed a frame the reference layout rejects ({e}): {frame!r}")
+        if "length field" in str(e):
+            # octet count after the TPCI octet disagrees with the NPDU length field: such a frame cannot be
+            # reproduced by to_knx() (length and octets are derived from the payload), so it must be rejected
+            kind = "control" if isinstance(frame.data.tpci, T.TPCI) and frame.data.tpci.control else "data"
+            try:
+                again = frame.to_knx().hex()
+            except Exception as e2:  # noqa: BLE001
+                again = f"<{type(e2).__name__}>"
+            b = 2 + raw[1]
+            ctx.fail(
+                f"C13:received:accepted-length-mismatch:{kind}",
+                raw,
+                f"NPDU length octet {raw[b + 6]} but {len(raw) - (b + 8)} octet(s) follow the TPCI octet; parsed as {repr(frame.data)[:160]}; "
+                f"received {raw.hex()} re-serialises to {again}",
+            )
+        else:
+            ctx.fail("C13:received:accepted-malformed-layout", raw, f"xknx parsed a frame the reference layout rejects ({e}): {frame!r}")
+        return
+    if d["control"] and d["length"] != 0:
+        ctx.case(raw, nontrivial=True, cls="rx:control-with-length")
+        ctx.fail("C13:received:accepted-length-mismatch:control-npdu-length-nonzero", raw, f"control TPDU with NPDU length {d['length']} accepted: {repr(frame.data)[:160]} from {raw.hex()}")
         return
     if d["length"] > L.MAX_L:
         # 255 is not a length but the escape code of the LG field (TP1 2.2.5.6; xknx.cemi.const.MAX_NPDU_LENGTH)
@@ -330,6 +353,7 @@ def _shard_built(ctx, n: int) -> None:
 
 def _shard_received(ctx, n: int) -> None:
     valid = [bytes(x.to_knx()) for x in S.service_instances()]
+    hyp_search(ctx, S.length_mismatch_ldata_frames(valid), oracle_received_counting_mismatch, n // 2, seed_salt=3)
     hyp_search(ctx, S.plausible_ldata_frames(valid), oracle_received, n, seed_salt=4)
     hyp_search(ctx, S.wellformed_ldata_frames(), oracle_received, n // 2, seed_salt=5)
     hyp_search(ctx, S.raw_cemi_frames(), oracle_received, n // 4, seed_salt=6)
@@ -338,6 +362,52 @@ def _shard_received(ctx, n: int) -> None:
 def _shard_both(ctx, n_built: int, n_received: int) -> None:
     _shard_built(ctx, n_built)
     _shard_received(ctx, n_received)
+
+
+def oracle_received_counting_mismatch(ctx, raw: bytes) -> None:
+    """oracle_received for frames built to have a length disagreement: those count as non-trivial even when
+    (correctly) rejected, since rejection is the behaviour being checked."""
+    before = ctx.evaluations
+    oracle_received(ctx, raw)
+    if ctx.evaluations == before + 1 and ctx.classes.get("rx:rejected"):
+        ctx.nontrivial.add(hash(raw) & 0xFFFFFFFFFFFF)
+    ctx.classes["rx:length-mismatch-input"] += 1
+
+
+CONTROL_TPCI_OCTETS = [0x80, 0x81] + [0xC2 | s << 2 for s in range(16)] + [0xC3 | s << 2 for s in range(16)]
+
+
+def enumerate_length_mismatch(ctx) -> None:
+    """Received frames whose octet count disagrees with the NPDU length field, control AND data TPDUs,
+    both directions; plus control TPDUs announcing a length > 0. Deterministic."""
+    n = 0
+    hdr_ind = bytes.fromhex("b06010fa10ff")  # Ctrl1 Ctrl2 src dst(individual)
+    hdr_grp = bytes.fromhex("bce010fa0901")
+    tails = [b"\x00", b"\x80", b"\x00\x00", b"\x01\x02\x03", b"\x00\x00\x00\x00", b"\xff\xfe\xfd\xfc"]
+    for code in (0x29, 0x11, 0x2E):
+        for t in CONTROL_TPCI_OCTETS:
+            for add in (b"", b"\x03\x01\xaa"):
+                pre = bytes([code, len(add)]) + add + hdr_ind
+                frames = [pre + b"\x00" + bytes([t]) + tail for tail in tails]  # length 0, surplus octets
+                frames += [pre + bytes([len(tail)]) + bytes([t]) + tail for tail in tails]  # control TPDU with length n > 0, n octets
+                frames += [pre + bytes([k]) + bytes([t]) for k in (1, 2, 15, 254)]  # length n > 0, nothing follows
+                frames += [pre + bytes([2]) + bytes([t]) + b"\x00", pre + bytes([1]) + bytes([t]) + b"\x00\x00"]
+                for f in frames:
+                    oracle_received_counting_mismatch(ctx, f)
+                    n += 1
+    apdus = [bytes(x.to_knx()) for x in S.service_instances()] + [b"\x00\x80", b"\x00\x81", b"\x00\x80\x01", b"\x00\x80" + bytes(14), b"\x00\x80" + bytes(15), b"\x00\x40\x00\x00"]
+    for hdr, tp in ((hdr_grp, 0x00), (hdr_ind, 0x00), (hdr_ind, 0x44), (hdr_grp, 0x04)):
+        for apdu in apdus:
+            true_len = len(apdu) - 1
+            tpdu = bytes([tp | apdu[0]]) + apdu[1:]
+            pre = b"\x29\x00" + hdr
+            frames = [pre + bytes([max(0, min(255, true_len + dl))]) + tpdu for dl in (-2, -1, 1, 2) if 0 <= true_len + dl <= 255 and dl]
+            frames += [pre + bytes([true_len]) + tpdu + extra for extra in (b"\x00", b"\x00\x00", b"\x7f")]  # surplus octets
+            frames += [pre + bytes([true_len]) + tpdu[:-k] for k in (1, 2) if len(tpdu) - k >= 1]  # missing octets
+            for f in frames:
+                oracle_received_counting_mismatch(ctx, f)
+                n += 1
+    ctx.notes["length_mismatch_frames_enumerated"] = n
 
 
 def enumerate_lengths(ctx) -> None:
@@ -375,6 +445,7 @@ def selftest(ctx) -> None:
 
 def run(ctx) -> None:
     enumerate_lengths(ctx)
+    enumerate_length_mismatch(ctx)
     ctx.notes["service_instances"] = len(S.service_instances())
     shards = ctx.n(8, 16)
     parallel(ctx, _shard_both, [(ctx.n(700, 12000), ctx.n(500, 10000))] * shards)
